@@ -664,4 +664,76 @@ theorem reject_primary_timestamp_arity (p : Primary) (h : p.wf = true) (t : Nat)
     obtain ⟨s', hx⟩ := har.2.2 n hn3 hn
     exact reject_primary_slot p h t ht 6 (by omega) count hc hkc _ ⟨_, _, hx⟩
 
+/-! ### ANY one of the mandatory items of a canonical block missing -/
+
+theorem encBytes_cons (b : Bytes) : ∃ x tl, encBytes b = x :: tl ∧ x.toNat / 32 = 2 := by
+  unfold encBytes encHead
+  split
+  · rename_i h; exact ⟨_, _, rfl, by rw [UInt8.toNat_ofNat']; omega⟩
+  · split
+    · exact ⟨_, _, rfl, by decide⟩
+    · split
+      · exact ⟨_, _, rfl, by decide⟩
+      · split
+        · exact ⟨_, _, rfl, by decide⟩
+        · exact ⟨_, _, rfl, by decide⟩
+
+/-- the visitor fails when any one of the first four mandatory items of a canonical block (block
+    type, block number, block flags, CRC type) is missing: the data byte string ends up where an
+    unsigned integer is required -/
+theorem visitCanon_missing (c : Canon) (h : c.wf = true) (t : Nat) (ht : t < 256) (k : Nat) (hk : k < 4)
+    (n : Nat) (tail : Bytes) :
+    ∃ e s', visitCanon (some (n + 4)) ⟨((canonItems c t).eraseIdx k).flatten ++ tail, 126⟩ = (.err e, s') := by
+  simp only [Canon.wf, Bool.and_eq_true, U64_eq] at h
+  obtain ⟨⟨⟨⟨⟨hbt, hn⟩, hf⟩, _⟩, _⟩, _⟩ := h
+  have hbt := of_decide_eq_true hbt
+  have hn := of_decide_eq_true hn
+  have hf := of_decide_eq_true hf
+  obtain ⟨x, tl, hx, hm⟩ := encBytes_cons (btsd c.data)
+  obtain ⟨e, s', hr⟩ := (readUint_wrong_major x (tl ++ tail) 126 (by omega) (by omega) (by omega)).2.2
+  have hk' : k = 0 ∨ k = 1 ∨ k = 2 ∨ k = 3 := by omega
+  refine ⟨e, s', ?_⟩
+  rcases hk' with rfl | rfl | rfl | rfl
+  · simp [canonItems, visitCanon, bind_apply, reqElem_succ, readU64_enc c.num hn, readU64_enc c.flags (by omega),
+      readU8_enc t ht, hx, hr]
+  · simp [canonItems, visitCanon, bind_apply, reqElem_succ, readU64_enc c.btype hbt, readU64_enc c.flags (by omega),
+      readU8_enc t ht, hx, hr]
+  · simp [canonItems, visitCanon, bind_apply, reqElem_succ, readU64_enc c.btype hbt, readU64_enc c.num hn,
+      readU8_enc t ht, hx, hr]
+  · simp [canonItems, visitCanon, bind_apply, reqElem_succ, readU64_enc c.btype hbt, readU64_enc c.num hn,
+      readU8_enc c.flags hf, hx, hr]
+
+/-- **C19 (ANY one of the first four mandatory items of a canonical block missing).** (The fifth,
+    the data, missing: `reject_canon_missing_item`.) -/
+theorem reject_canon_missing (p : Primary) (hp : p.wf = true ∧ p.crc.wire = true) (c : Canon) (h : c.wf = true)
+    (t : Nat) (ht : t < 256) (k : Nat) (hk : k < 4) (count : Nat) (hc : count < 24) (hc4 : 4 ≤ count) (tail : Bytes) :
+    ∃ e, decodeBundle ([0x9f] ++ (encPrimary p ++ (encArrayHead count ++ (((canonItems c t).eraseIdx k).flatten ++ tail)))) = .err e := by
+  obtain ⟨n, rfl⟩ : ∃ n, count = n + 4 := ⟨count - 4, by omega⟩
+  obtain ⟨e, s', hv⟩ := visitCanon_missing c h t ht k hk n tail
+  have := readCanon_of_visit_err (n + 4) hc _ e s' hv
+  rw [encArrayHead_small _ hc]
+  simp only [List.cons_append, List.nil_append]
+  exact ⟨e, reject_of_canon_err p hp _ (by rw [UInt8.toNat_ofNat']; omega) _ e _ this⟩
+
+/-! ### the hypotheses are satisfiable, and the faults are real faults -/
+
+/-- a conformant primary block: version 7, fragment, CRC-16, dtn destination, ipn source -/
+def samplePrimary : Primary :=
+  { version := 7, flags := 1, crc := .v16 0x12 0x34, dst := .dtn 1 [47, 47, 110, 47, 97], src := .ipn 2 7 1,
+    rpt := .null 1 0, ts := 1000, seq := 3, lifetime := 3600000, fragOff := 5, total := 50 }
+
+def sampleCanon : Canon := { btype := 7, num := 2, flags := 0, crc := .no, data := .age 12 }
+
+example : samplePrimary.wf = true ∧ samplePrimary.crc.wire = true ∧ sampleCanon.wf = true := by decide
+
+/-- the wrong-kind theorem is not vacuous: a text string in place of the lifetime, a negative
+    integer in place of the version, an unsigned integer in place of the source endpoint ID are
+    covered; and WITHOUT the fault the same prefix continues into an accepted bundle -/
+example : ((0x61 : UInt8).toNat / 32 ≠ primarySlotMajor 7 ∧ (0x61 : UInt8).toNat / 32 ≠ 6) ∧
+          ((0x20 : UInt8).toNat / 32 ≠ primarySlotMajor 0 ∧ (0x20 : UInt8).toNat / 32 ≠ 6) ∧
+          ((0x05 : UInt8).toNat / 32 ≠ primarySlotMajor 4 ∧ (0x05 : UInt8).toNat / 32 ≠ 6) := by decide
+
+example : EidFault [0x82, 0x03, 0x00] ∧ EidFault [0x82, 0x02, 0x82, 0x00, 0x01] ∧ EidFault [0x83, 0x01, 0x00, 0x00] :=
+  ⟨.scheme 3 [0x00] (by decide) (by decide) (by decide), .node0 1 (by decide), .extra⟩
+
 end Bp7.C19
